@@ -244,7 +244,7 @@ class Models(object):
                      'isscalar', 'clip', 'cumsum', 'mean', 'sort', 'argsort', 'copy', 'meshgrid', 'allclose',
                      'isclose', 'expand_dims', 'broadcast_to', 'array_equal', 'count_nonzero', 'trapz',
                      'nanmedian', 'flip', 'tile', 'repeat', 'unravel_index', 'cumprod', 'take', 'ascontiguousarray',
-                     'column_stack', 'real_if_close', 'ptp', 'vdot', 'putmask', 'issubdtype', 'polyfit', 'polyval', 'fliplr', 'flipud', 'triu', 'tril', 'copyto', 'unique'):
+                     'column_stack', 'resize', 'real_if_close', 'ptp', 'vdot', 'putmask', 'issubdtype', 'polyfit', 'polyval', 'fliplr', 'flipud', 'triu', 'tril', 'copyto', 'unique'):
             fn = getattr(self, 'np_' + name, None)
             if fn is None:
                 fn = self._unmodelled('np.' + name)
@@ -480,13 +480,26 @@ class Models(object):
             out.append(a)
         return out[0] if len(out) == 1 else out
 
-    def np_atleast_2d(self, x):
-        a = self.np_asarray(x)
-        if a.ndim == 0:
-            return a.reshape(1, 1)
-        if a.ndim == 1:
-            return a.reshape(1, a.shape[0])
-        return a
+    def np_atleast_2d(self, *xs):
+        out = []
+        for x in xs:
+            a = self.np_asarray(x)
+            if a.ndim == 0:
+                a = a.reshape(1, 1)
+            elif a.ndim == 1:
+                a = a.reshape(1, a.shape[0])
+            out.append(a)
+        return out[0] if len(out) == 1 else out
+
+    def np_resize(self, a, new_shape):
+        """np.resize: the flattened data repeated / truncated to fill the new shape (never an error)."""
+        a = self.np_asarray(a)
+        shape = _shape_arg(new_shape)
+        n = _prod(shape)
+        items = a.ravel().items()
+        if not items:
+            return self._filled(shape, 0)
+        return Arr(shape, [items[k % len(items)] for k in range(n)], kind=a.kind)
 
     def np_ravel(self, x, order='C'):
         a = self.np_asarray(x)
